@@ -54,6 +54,16 @@ CLAIMED.update({
     "C14": ("Same history: for EVERY head set replica a ever had (single heads and the two-head set after the merge) reload_until and new_until show exactly the recorded state, "
             "a plain reload returns to the latest state, and every revision of the travelled history keeps its value and parent.", "DESIGN.md §5 C14"),
 })
+CLAIMED.update({
+    "C02": ("Melda-level, executed from MIR: the items of a linear 2-commit history (all 24 orders of its 4 files) and of a concurrent+merge history (all 720 orders of 6 files on top of the "
+            "base) are delivered one file at a time to a fresh replica that refreshes after each: the visible state always equals the recorded state of exactly the causally complete "
+            "blocks (block + all ancestors + packs present), equals a full reload of the same storage, and finally equals the source.", "DESIGN.md §5 C02"),
+    "C09": ("Melda-level with a harness-side fault-injecting backend around the real MemoryAdapter: 1-2 failing writes inside a commit (incl. the same write failing on the retry) leave the "
+            "stage and the view intact, the retry is as durable as an uninterrupted commit, a block never precedes its pack, and reopening at EVERY write boundary of the commit / of a meld with "
+            "failing copy writes shows only complete previous/new states; repeating the meld converges.", "DESIGN.md §5 C09"),
+    "C12": ("Melda-level: in states with pending array and object conflicts (concurrent inserts at the same position, moves between arrays, removals; optional symbolic element ids) read() is "
+            "unchanged by meld without refresh, idle refresh/reload, stage_full_snapshot (+commit, reopen), commit with automatic array resolution (+reopen) and idle commit.", "DESIGN.md §5 C12"),
+})
 NA_REASON_PENDING = "check not built yet in this revision of /verif (Melda-level MIR reach in progress); not claimed"
 
 checks = []
